@@ -65,6 +65,9 @@ fn main() {
         "C14" => {
             let n = a.n.unwrap_or(if thorough { 2_000_000 } else { 100_000 });
             vh::props::c14::run(&mut rep, thorough, n, a.replay.as_deref());
+            if a.replay.is_none() && !cfg!(miri) {
+                vh::props::c08::run_c14_live(&mut rep, thorough);
+            }
         }
         "C01" => vh::props::c01::run_c01(&mut rep, thorough, a.replay.as_deref()),
         "C15" => vh::props::c01::run_c15(&mut rep, thorough),
